@@ -177,6 +177,7 @@ PANIC_API = [
     (r"alloc::vec::Vec::(reserve|reserve_exact|resize)$", "alloc-size"),
     (r"core::slice::<impl \[T\]>::(split_at|split_at_mut|copy_from_slice|clone_from_slice|swap|chunks|chunks_exact|windows|rotate_left|rotate_right|select_nth_unstable|copy_within)$", "slice-op"),
     (r"core::str::<impl str>::(split_at|split_at_mut)$", "slice-op"),
+    (r"alloc::collections::btree::(set::BTreeSet|map::BTreeMap)::(range|range_mut)$", "range-api"),
     (r"core::cell::RefCell::(borrow|borrow_mut)$", "refcell"),
     (r"core::iter::traits::iterator::Iterator::step_by$", "arith-api"),
     (r"core::f64::<impl f64>::clamp$", "arith-api"),
@@ -931,6 +932,13 @@ class Discharger:
                         cond_mentions_state = True
             if cond_mentions_state:
                 return ("protocol", "turn-taking precondition asserted at the API entry (the property conditions on it)")
+        if s.kind == "range-api" and s.call is not None and len(s.call.args) >= 2:
+            # BTreeSet::range panics when start > end (or start == end with both excluded): safe when one end is open
+            r = strip_expr(body.expr(s.call.args[1], depth=20))
+            txt = show(r)
+            if r[0] == "agg" and (str(r[1]).split("::")[-1] in ("RangeFrom", "RangeTo", "RangeToInclusive", "RangeFull") or
+                                  (r[1] == "tuple" and "Unbounded" in txt)):
+                return ("guard", "one end of the range is unbounded: start <= end cannot fail")
         if s.kind == "panic":
             g = guard_option_just_filled(body, s)
             if g:
